@@ -199,16 +199,13 @@ Definition exec_cmd (g : grid) (o : view) (c : cmd) : res (grid * view) :=
       do g' <- step g1 (Embed o (next g) (Pos.succ (next g)) fits); Ok (g', o)
   end.
 
-(** the state to go on with when the command raises; [None]: the grid it was applied to was not consistent, the case ends
-    (it also ends after a refused delete_block: Python walks a SET of connection names, the model a list, so which
-    connections are gone when it stops half way is not determined by the model) *)
-Definition is_delete_block (e : op) : bool := match e with DelBlock _ => true | _ => false end.
+(** the state to go on with when the command raises; [None]: the grid it was applied to was not consistent, the case ends *)
 Definition after_cmd (g : grid) (o : view) (c : cmd) : option (grid * view) :=
   match c with
-  | OnMain e => if inv_b g && negb (is_delete_block e) then Some (after g e, o) else None
+  | OnMain e => if inv_b g then Some (after g e, o) else None
   | OnOther e =>
       let go := with_view g o in
-      if inv_b go && negb (is_delete_block e) then let g' := after go e in Some (with_view g' (view_of g), view_of g') else None
+      if inv_b go then let g' := after go e in Some (with_view g' (view_of g), view_of g') else None
   | Sum _ => None
   | Emb false na nb fits =>
       if inv_b g && inv_b (with_view g o) then
